@@ -20,7 +20,8 @@ _WITH = re.compile(r"^\s*with\s+([A-Za-z_][A-Za-z_0-9\.]*)\s*(?:as\s+\w+\s*)?:")
 
 
 class Execution:
-    def __init__(self, files: set[str], bodies: list[Callable[[], None]], prefix: list[int], step_timeout: float = 5.0):
+    def __init__(self, files: set[str], bodies: list[Callable[[], None]], prefix: list[int], step_timeout: float = 5.0,
+                 yield_names: frozenset = frozenset()):
         self.files = files
         self.bodies = bodies
         self.prefix = list(prefix)
@@ -36,6 +37,9 @@ class Execution:
         self.step_timeout = step_timeout
         self.timed_out = False
         self.holds: dict[int, set[int]] = {}     # tid -> ids of locks it entered through a traced `with`
+        self.yield_names = yield_names           # a thread entering one of these functions offers the token to the next thread
+        self.where_at: list[tuple] = []          # (function, line, event) the chosen thread was paused at, per scheduling point
+        self.yield_at: list[bool] = []           # the previously running thread was at a yield point (a switch there is voluntary)
 
     # ---- worker side -----------------------------------------------------------------------------
     def _pause(self, tid: int, frame, where):
@@ -141,8 +145,12 @@ class Execution:
                 if not enabled:
                     self.timed_out = True      # everybody blocked: a real deadlock
                     break
+                at_yield = last in self.waiting and self.waiting[last][1][2] == "call" and self.waiting[last][1][0] in self.yield_names
                 if pos < len(self.prefix) and self.prefix[pos] in enabled:
                     choice = self.prefix[pos]
+                elif at_yield:
+                    later = [t for t in enabled if t > last]
+                    choice = later[0] if later else enabled[0]          # round robin at voluntary yield points
                 elif last in enabled:
                     choice = last
                 else:
@@ -150,6 +158,8 @@ class Execution:
                 pos += 1
                 self.trace.append(choice)
                 self.enabled_at.append(enabled)
+                self.where_at.append(self.waiting[choice][1])
+                self.yield_at.append(bool(at_yield))
                 last = choice
                 self._grant(choice)
                 self.token = choice
@@ -159,10 +169,10 @@ class Execution:
         return self
 
 
-def preemptions(trace: list[int], enabled_at: list[list[int]]) -> int:
+def preemptions(trace: list[int], enabled_at: list[list[int]], yield_at: list[bool] | None = None) -> int:
     n = 0
     for k in range(1, len(trace)):
-        if trace[k] != trace[k - 1] and trace[k - 1] in enabled_at[k]:
+        if trace[k] != trace[k - 1] and trace[k - 1] in enabled_at[k] and not (yield_at and k < len(yield_at) and yield_at[k]):
             n += 1
     return n
 
